@@ -78,6 +78,8 @@ pub enum FeedTail {
   OversizeFrame,
   ReservedFlagBits,
   HalfFrameThenClose,
+  /// all messages complete, then the peer shuts its write side at once
+  CloseAfterLast,
 }
 
 #[derive(Clone, Debug, Serialize, Deserialize, PartialEq, Eq, Hash)]
@@ -1063,6 +1065,7 @@ pub mod child {
         stream.extend(&[0u8; 64]);
       }
       FeedTail::ReservedFlagBits => stream.extend(&[0xF8, 0x01, 0x00]),
+      FeedTail::CloseAfterLast => {}
       FeedTail::HalfFrameThenClose => {
         stream.push(0x00);
         stream.push(200);
@@ -1070,7 +1073,7 @@ pub mod child {
       }
     }
     let chunks: Vec<u16> = chunks.to_vec();
-    let close_after = matches!(tail, FeedTail::HalfFrameThenClose);
+    let close_after = matches!(tail, FeedTail::HalfFrameThenClose | FeedTail::CloseAfterLast);
     let writer = tokio::spawn(async move {
       let mut off = 0usize;
       let mut ci = 0usize;
